@@ -393,7 +393,8 @@ def handleOnConnection (cfg : Cfg) (k : Kernel) (fd : Nat) (l r : SockAddr) (s :
           if cfg.fixRstAfterClose && so.fdClosed && !s.payload.isEmpty then
             (k.emit l r (rstAckSeg t l)).remove fd
           else
-            let (t', sendAck) := t.handleEstablished cfg s
+            -- the peer is alive: its zero-window probes are being answered (`persist_probes = 0`)
+            let (t', sendAck) := (t.heard cfg s).handleEstablished cfg s
             let k1 := k.setSock fd { so with tcb := some t' }
             if sendAck then k1.emit l r (t'.replySeg cfg s l.port r.port) else k1
 
@@ -417,7 +418,7 @@ def deliver (cfg : Cfg) (k : Kernel) (p : Packet) : Kernel :=
 
 /-- The children a closing listener resets (tcp.rs:639-664): its ready queue, then every
     `SynReceived` socket bound to its port (and address, unless the listener is a wildcard). -/
-def listenerChildren (k : Kernel) (fd : Nat) (ls : Socket) : List Nat :=
+def listenerChildren (k : Kernel) (fam : Bool) (fd : Nat) (ls : Socket) : List Nat :=
   let l := boundEndpoint ls
   let ready := match ls.listen with
     | some li => li.ready
@@ -426,7 +427,8 @@ def listenerChildren (k : Kernel) (fd : Nat) (ls : Socket) : List Nat :=
     if e.1 == fd || ready.contains e.1 then none
     else match e.2.tcb, e.2.bound with
       | some t, some b =>
-        if t.state == .synReceived && b.port == l.port && (l.ip.isUnspecified || b.ip == l.ip)
+        if t.state == .synReceived && b.port == l.port && (l.ip.isUnspecified || b.ip == l.ip) &&
+            (!fam || b.ip.isV6 == l.ip.isV6)
         then some e.1 else none
       | _, _ => none
   ready ++ extra
@@ -442,14 +444,14 @@ def closeChild (k : Kernel) (child : Nat) : Kernel :=
       (k.emit cl t.peer (rstAckSeg t cl)).remove child
 
 /-- `on_close` (tcp.rs:533): returns `true` when the caller reaps the entry at once. -/
-def onClose (k : Kernel) (fd : Nat) : Kernel × Bool :=
+def onClose (k : Kernel) (fam : Bool) (fd : Nat) : Kernel × Bool :=
   match k.getSock fd with
   | none => (k, true)
   | some s =>
     if s.dgram then (k, true)
     else
       match s.tcb, s.listen with
-      | none, some _ => ((k.listenerChildren fd s).foldl closeChild k, true)
+      | none, some _ => ((k.listenerChildren fam fd s).foldl closeChild k, true)
       | some t, _ =>
         if !t.reset && !t.timedOut && t.state != .closed && t.state != .synSent && t.state != .synReceived then
           if !t.recvBuf.isEmpty then
@@ -461,8 +463,8 @@ def onClose (k : Kernel) (fd : Nat) : Kernel × Bool :=
       | none, none => (k, true)
 
 /-- `Kernel::close` (mod.rs:199). -/
-def close (k : Kernel) (fd : Nat) : Kernel :=
-  let r := k.onClose fd
+def close (k : Kernel) (fam : Bool) (fd : Nat) : Kernel :=
+  let r := k.onClose fam fd
   if r.2 then r.1.remove fd else r.1
 
 def reapVictim (s : Socket) : Bool :=
@@ -519,8 +521,10 @@ def persistProbe (cfg : Cfg) (k : Kernel) (fd : Nat) : Kernel :=
       let l := boundEndpoint s
       if t.persistTicks + 1 < cfg.retxThreshold then
         k.setSock fd { s with tcb := some { t with persistTicks := t.persistTicks + 1 } }
+      else if cfg.fixPersistBudget && decide (t.persistProbes ≥ cfg.retxMax) then
+        (k.setSock fd { s with tcb := some { t with persistTicks := 0 } }).abortWith cfg fd false
       else
-        (k.setSock fd { s with tcb := some { t with persistTicks := 0 } }).emit l t.peer (t.probeSeg cfg.recvCap l.port)
+        (k.setSock fd { s with tcb := some (t.probeSent cfg.fixPersistBudget) }).emit l t.peer (t.probeSeg cfg.recvCap l.port)
 
 def persistCands (k : Kernel) : List Nat :=
   k.sockets.filterMap fun e =>
